@@ -843,6 +843,14 @@ public:
       }
     }
 
+    // A timed-out drain restores Running/_accepting so that it can be retried.
+    // stop() does not retry: from here on the service must refuse new timers,
+    // otherwise they are accepted by a service whose thread is gone (never fire).
+    {
+      std::lock_guard<std::mutex> lock(_mutex);
+      _accepting.store(false, std::memory_order_release);
+    }
+
     // Now transition to Stopped
     bool expected = true;
     if (_running.compare_exchange_strong(expected, false, std::memory_order_acq_rel))
